@@ -128,6 +128,29 @@ def entries(root: str) -> list[str]:
     return out
 
 
+def entries_through_links(root: str, ents: list[str], depth: int = 2) -> list[str]:
+    """paths that name an entry of the tree THROUGH a symlinked directory (`ld/a`, `ld/a/b`): not
+    produced by a no-follow walk, but path objects the properties quantify over (added after seeded
+    change C16a: the implicit `**` prefix of match() lost its symlink check when GLOBSTAR was off)"""
+    out: list[str] = []
+
+    def below(rel: str, d: int) -> None:
+        full = os.path.join(root, rel)
+        try:
+            names = sorted(os.listdir(full))
+        except OSError:
+            return
+        for n in names[:6]:
+            r = rel + '/' + n
+            out.append(r)
+            if d > 1 and os.path.isdir(os.path.join(root, r)):
+                below(r, d - 1)
+    for e in ents:
+        if e and os.path.islink(os.path.join(root, e)) and os.path.isdir(os.path.join(root, e)):
+            below(e, depth)
+    return out[:40]
+
+
 def describe(root: str) -> list[list[str]]:
     d = []
     for e in entries(root):
@@ -500,6 +523,15 @@ def sig_first_gstar(W, P, pats, fl: int) -> bool:
         if seg and not e.startswith('/') and _is_gstar(seg[0], gs, gsl):
             return True
     return False
+
+
+def sig_has_gstar_segment(W, P, pats, fl: int) -> bool:
+    """some (expanded) pattern has a written globstar segment while GLOBSTAR/GLOBSTARLONG is on (together with the
+    implicit `**/` prefix of match() that makes two `**` groups: the trigger of KF-G3)"""
+    gs, gsl = bool(fl & P.GLOBSTAR), bool(fl & P.GLOBSTARLONG)
+    if not (gs or gsl):
+        return False
+    return any(any(_is_gstar(sg, gs, gsl) for sg in _segments(e)) for e in _expanded(W, pats, fl))
 
 
 def sig_empty_part(G, W, P, pats, fl: int) -> bool:
